@@ -126,6 +126,14 @@ def entries_family(n):
     focus = list(range(n)) if n <= 6 else [c for c in [0, 1, 3, 6, 7, 8, 9, 10, 12, 14, 15] if c < n]
     fam = []
     count = 24 if n <= 6 else 10
+    # directed: every (entry view kind, sub-view kind) on the LAST component of the registry alone (boundary of the
+    # index arithmetic), and on the first one next to it
+    last = n - 1
+    for ek in ("r", "m", "or", "om"):
+        for sk in SUB_OF[ek]:
+            fam.append(([(ek, last)], [(sk, last)], ("n",)))
+    fam.append(([("r", 0), ("r", last)], [("or", last), ("or", 0)], ("n",)))
+    count += len(fam)
     while len(fam) < count:
         ne = rng.choice([1, 2, 2, 3, 3, 4])
         pool = focus[:]
